@@ -161,6 +161,10 @@ def run(ctx):
 
 RE = "run_engine.py"
 MUTANTS = [
+    ("rewindable toggle runs the checkpoint handler (seed C09-c)",
+     [(RE, "        if rw_flag is not None:\n            self.rewindable = rw_flag\n", "        if rw_flag is not None:\n            changed = bool(rw_flag) != self.rewindable\n            self.rewindable = rw_flag\n            if changed and self.resumable:\n                await self._checkpoint(msg)\n")], "C09.D2"),
+    ("the save handler takes a pending deferred pause",
+     [(RE, "        (rw_flag,) = msg.args\n", "        (rw_flag,) = msg.args\n        if self._deferred_pause_requested:\n            await self._request_pause_coro(defer=False)\n")], "C09.D2"),
     ("termination of _run clears the pending request",
      [(RE, "            self._pardon_failures.set()\n            # call stop() on every movable", "            self._pardon_failures.set()\n            self._deferred_pause_requested = False\n            # call stop() on every movable")], "C09.D1"),
     ("checkpoint pauses before recording the checkpoint",
@@ -178,5 +182,6 @@ MUTANTS = [
      [(RE, "        if self._deferred_pause_requested:\n            # We are at a checkpoint; we are done deferring the pause.", "        if True:\n            # We are at a checkpoint; we are done deferring the pause.")], "C09.D2"),
 ]
 BENIGN = [
+    ("the pending flag is logged by another handler", [(RE, "        (rw_flag,) = msg.args\n", "        (rw_flag,) = msg.args\n        self.log.debug(\"deferred pause pending: %s\", self._deferred_pause_requested)\n")]),
     ("reset done through the sync helper", [(RE, "            raise IllegalMessageSequence(\"Cannot 'checkpoint' after 'create' and before 'save'. Aborting!\")\n\n        await self._reset_checkpoint_state_coro()", "            raise IllegalMessageSequence(\"Cannot 'checkpoint' after 'create' and before 'save'. Aborting!\")\n\n        self._reset_checkpoint_state()")]),
 ]
